@@ -136,7 +136,19 @@ def unpack_known_tuples(fn: ast.FunctionDef) -> ast.FunctionDef:
             and n.value.id in displays
             and len(n.targets[0].elts) == len(displays[n.value.id].elts)
             and all(isinstance(t, ast.Name) for t in n.targets[0].elts)]
-    if not hits:
+
+    def direct(st) -> bool:
+        # `x, y = (A, B)`: a display unpacked on the spot, no target read by a value
+        if not (isinstance(st, ast.Assign) and len(st.targets) == 1
+                and isinstance(st.targets[0], ast.Tuple) and isinstance(st.value, ast.Tuple)
+                and len(st.targets[0].elts) == len(st.value.elts)
+                and all(isinstance(t, ast.Name) for t in st.targets[0].elts)
+                and not any(isinstance(v, ast.Starred) for v in st.value.elts)):
+            return False
+        tn = {t.id for t in st.targets[0].elts}
+        return not any(isinstance(x, ast.Name) and x.id in tn
+                       for v in st.value.elts for x in ast.walk(v))
+    if not hits and not any(direct(n) for n in ast.walk(fn)):
         return fn
     new = copy.deepcopy(fn)
     for parent in ast.walk(new):
@@ -155,6 +167,10 @@ def unpack_known_tuples(fn: ast.FunctionDef) -> ast.FunctionDef:
                         out.append(ast.copy_location(
                             ast.Assign([ast.Name(t.id, ast.Store())],
                                        ast.Name(v.id, ast.Load())), st))
+                elif direct(st):
+                    for t, v in zip(st.targets[0].elts, st.value.elts):
+                        out.append(ast.copy_location(
+                            ast.Assign([ast.Name(t.id, ast.Store())], v), st))
                 else:
                     out.append(st)
             setattr(parent, field, out)
